@@ -445,6 +445,93 @@ fn recovery_core_opts(mut cfg: RingCfg, unsync: bool, t: &mut Tape, obs: &mut Ob
     Ok(())
 }
 
+/// A station that is waiting for the reply to one of its GAP polls hears the token telegram of
+/// another station: there is a second token holder.  It must withdraw (no further transmission as
+/// token holder) until its own silence time-out has run out - otherwise both keep their tokens.
+/// `i`: bit 0 the foreign token comes from the polled address / from a third address; bit 1 it is
+/// addressed to a third station / to the station itself; bits 2.. which poll is answered that way
+/// (0..=2: during the scan that follows the claim, 3..=5: regular polls, one per visit).
+fn second_holder_case(i: u64, obs: &mut Obs) -> CaseResult {
+    use crate::envsim::{token, World, ENV};
+    use crate::refcodec::{self as rc, RefFrame};
+    const TS: u8 = 4;
+    const SLOT: i64 = 300;
+    let from_polled = i & 1 == 0;
+    let to_self = i & 2 != 0;
+    let which = (i >> 2) % 6;
+    let mut w = World::new(TS, 12, profirust::Baudrate::B1500000, SLOT as u16, 1, None);
+    let mut seen = 0usize;
+    let mut polls = 0u64;
+    let mut regular_polls = 0u64;
+    let mut own_tokens = 0u64;
+    let mut injected_at: Option<(i64, u8)> = None;
+    let t_lost = w.bit_us((6 + 2 * i64::from(TS)) * SLOT);
+    let t_end = 400 * w.bit_us(SLOT) + 40 * t_lost;
+    let mut after: Vec<(i64, Vec<u8>)> = vec![];
+    while w.now < t_end {
+        w.step(7);
+        let recs = w.sent_since(seen);
+        seen = w.trace_len();
+        for r in recs {
+            if r.sender != 0 {
+                continue;
+            }
+            if let Some((at, _)) = injected_at {
+                after.push((r.start_ns / 1000 - at, r.bytes.clone()));
+                continue;
+            }
+            match rc::decode_one(&r.bytes) {
+                Some(RefFrame::Token { .. }) => own_tokens += 1,
+                Some(RefFrame::Data { fc: 0x49, da, dsap: None, ssap: None, .. }) => {
+                    // polls 0.. belong to the scan after the claim (two claim tokens before), the
+                    // regular ones follow after the first token pass to itself
+                    let regular = own_tokens > 2;
+                    let idx = if regular {
+                        regular_polls += 1;
+                        3 + (regular_polls - 1)
+                    } else {
+                        polls += 1;
+                        if polls <= 3 { polls - 1 } else { u64::MAX }
+                    };
+                    if idx == which {
+                        let end = (r.end_ns + 999) / 1000;
+                        let sa = if from_polled { da } else { (da + 2) % 12 };
+                        let sa = if sa == TS { (sa + 1) % 12 } else { sa };
+                        let to = if to_self { TS } else { 9 };
+                        while w.now < end + w.bit_us(40) {
+                            w.step(7);
+                        }
+                        w.bus.inject(ENV, w.now, &token(sa, to));
+                        injected_at = Some(((w.bus.0.borrow().trace.last().unwrap().end_ns + 999) / 1000, sa));
+                        seen = w.trace_len();
+                    }
+                }
+                _ => {}
+            }
+        }
+        if let Some((at, _)) = injected_at {
+            if w.now > at + 2 * t_lost {
+                break;
+            }
+        }
+    }
+    let Some((_, sa)) = injected_at else {
+        obs.label("poll-not-reached");
+        return Ok(());
+    };
+    // withdrawal: nothing before the silence time-out has run out (a token addressed to the station
+    // by a stranger is a first offer and not to be used either)
+    let early: Vec<String> = after.iter().filter(|(dt, _)| *dt < t_lost - w.bit_us(20)).map(|(dt, b)| format!("{} us: {}", dt, crate::props::c09::hex(b))).collect();
+    ensure!(early.is_empty(), "second-holder-not-withdrawn", "station #{TS} heard the token telegram of #{sa} while it was waiting for the reply to its GAP poll (a second token holder) but went on transmitting before its silence time-out of {} us had run out: {:?}", t_lost, early);
+    // and it must come back afterwards (claim) - the bus must not stay silent
+    ensure!(!after.is_empty(), "silent-after-withdrawal", "station #{TS} never transmitted again within two silence time-outs after it withdrew");
+    obs.label(if which < 3 { "during-claim-scan" } else { "during-regular-poll" });
+    obs.label(if from_polled { "token-from-polled-address" } else { "token-from-third-address" });
+    obs.nontrivial(i);
+    obs.sample(|| json!({"polled_reply": format!("token {} -> {}", sa, if to_self { TS } else { 9 }), "poll_index": which, "first_transmission_after_us": after.first().map(|x| x.0)}));
+    Ok(())
+}
+
 pub fn property() -> Property {
     Property {
         id: "C06",
@@ -456,11 +543,12 @@ pub fn property() -> Property {
         ],
         subchecks: vec![
             SubCheck::tape("recovery", "fault plan after ring formation, then fault-free recovery", recovery_case),
+            SubCheck::index("second_holder", "a station waiting for a GAP reply hears another station's token telegram (second token holder): it withdraws until its silence time-out (24 constructed scenarios)", second_holder_case),
             SubCheck::index("claim_race", "two stations whose silence time-outs run out in the same instant (constructed; probe of the known finding claim-race-lockstep)", claim_race_case),
         ],
         plan: |tier| match tier {
-            Tier::Quick => vec![Step::Enumerate { kind: "claim_race", count: 12 }, Step::Pbt { kind: "recovery", cases: 800, max_len: 160 }],
-            Tier::Thorough => vec![Step::Enumerate { kind: "claim_race", count: 12 }, Step::Pbt { kind: "recovery", cases: 8000, max_len: 160 }],
+            Tier::Quick => vec![Step::Enumerate { kind: "second_holder", count: 24 }, Step::Enumerate { kind: "claim_race", count: 12 }, Step::Pbt { kind: "recovery", cases: 800, max_len: 160 }],
+            Tier::Thorough => vec![Step::Enumerate { kind: "second_holder", count: 24 }, Step::Enumerate { kind: "claim_race", count: 12 }, Step::Pbt { kind: "recovery", cases: 8000, max_len: 160 }],
         },
         hang_is_violation: true,
         hang_limit_s: 900,
